@@ -5,6 +5,7 @@ import (
 	"errors"
 	"fmt"
 	"sort"
+	"strings"
 	"time"
 
 	pt "github.com/weedbox/pokertable"
@@ -252,7 +253,18 @@ func (r *c17Runner) do(name string, a margs, label string) error {
 	if name == "PlayerExtendActionDeadline" && err == nil {
 		res = fmt.Sprintf("+%d", r.table().State.CurrentActionEndAt-before)
 	}
-	r.transcript = append(r.transcript, fmt.Sprintf("%s[%s] -> %s err=%s | %s", name, label, res, es, c17Project(r.table(), before)))
+	proj := c17Project(r.table(), before)
+	if name == "PlayerReady" || name == "PlayerPay" || name == "PlayerSettlementFinish" {
+		// the call that completes a request lets the hand move on asynchronously: only the part of the projection
+		// that does not depend on how far it got is compared (the following step waits for the next request)
+		if i := strings.Index(proj, " ev="); i > 0 {
+			proj = proj[:i]
+		}
+		if name == "PlayerSettlementFinish" {
+			proj = "(the last signal opens the hand asynchronously: only result and error are compared)"
+		}
+	}
+	r.transcript = append(r.transcript, fmt.Sprintf("%s[%s] -> %s err=%s | %s", name, label, res, es, proj))
 	return err
 }
 
